@@ -353,6 +353,18 @@ func runPES(line []byte, rec *recorder) {
 			pvec("length-exact", h2, av, 0, av)
 			pvec("length-zero", h2, 0, 0, av)
 		}
+		// PES_header_data_length at the top of its 8 bits (250..255): stuffing bytes fill the header up (more than the 32 the standard
+		// allows a multiplexer to use; a parser takes the length as it comes)
+		for _, target := range []int{250, 252, 253, 254, 255, 255} {
+			h := &astits.PESHeader{StreamID: sidOf(), OptionalHeader: randOpt(r, r.pick(0x80, 0xc0, 0x00, 0x81), r.intn(16))}
+			base := int(twinPESHeader(h, 0, 0)[8])
+			if base > target {
+				continue
+			}
+			av := r.rangeInt(0, 100)
+			pvec("header-length-near-255", h, exactPlen(h, target-base, av), target-base, av)
+			pvec("header-length-near-255", h, 0, target-base, av)
+		}
 		for _, pl := range []int{65535 - 8, 65535 - 7, 65535 - 6, 65536, 70000} { // around the 16-bit limit (PTS-only header: 3 + 5)
 			wvec("length-16bit-limit", &astits.PESHeader{StreamID: 0xc0, OptionalHeader: randOpt(r, 0x80, 0)}, pl)
 		}
@@ -431,6 +443,67 @@ func runPES(line []byte, rec *recorder) {
 				}
 				rec.ev(M{"ev": "pstream", "class": "muxed-and-demuxed", "pid": pid, "sent": se, "got": ge})
 			}
+		}
+	case "remux":
+		// units that went through the library once: reference-encoded PES (bounded and unbounded, header stuffing, any stream id with an
+		// optional header) are demuxed, the PESData handed to a Muxer as it is, and the result demuxed again - same headers, same bytes
+		for rep := 0; rep < sc.N; rep++ {
+			var src []byte
+			nunits := r.rangeInt(3, 7)
+			for i := 0; i < nunits; i++ {
+				h := &astits.PESHeader{StreamID: uint8(r.pick(0xe0, 0xe0, 0xfd, 0xc0, 0xbd)), OptionalHeader: randOpt(r, r.pick(0x80, 0xc0, 0x80, 0xc0, 0x00), 0)}
+				hs := r.pick(0, 0, 1, 4, 17)
+				av := r.pick(1, 50, 184, 300, 1000)
+				plen := exactPlen(h, hs, av)
+				if r.intn(3) == 0 {
+					plen = 0
+				}
+				unit := append(twinPESHeader(h, plen, hs), r.bytes(av)...)
+				src = append(src, packetise(0x100, unit, len(src)/188)...)
+			}
+			demuxAll := func(stream []byte) ([]*astits.PESData, []M) {
+				var ds []*astits.PESData
+				var ms []M
+				dmx := astits.NewDemuxer(context.Background(), bytes.NewReader(stream), astits.DemuxerOptPacketSize(188))
+				for k := 0; k < len(stream)/188+20; k++ {
+					var d *astits.DemuxerData
+					var err error
+					if pn := safeCall(func() { d, err = dmx.NextData() }); pn != nil {
+						ms = append(ms, M{"hdr": M{"sid": -1, "opt": []interface{}{}}, "len": -1, "dg": "panic"})
+						break
+					}
+					if err == astits.ErrNoMorePackets {
+						break
+					}
+					if err != nil {
+						ms = append(ms, M{"hdr": M{"sid": -2, "opt": []interface{}{}}, "len": -1, "dg": "error"})
+						continue
+					}
+					if d.PES == nil || d.PID != 0x100 {
+						continue
+					}
+					ds = append(ds, d.PES)
+					ms = append(ms, M{"hdr": projPESHeader(d.PES.Header), "len": len(d.PES.Data), "dg": digest(d.PES.Data)})
+				}
+				return ds, ms
+			}
+			first, sent := demuxAll(src)
+			w := &recWriter{}
+			m := astits.NewMuxer(context.Background(), w)
+			m.AddElementaryStream(astits.PMTElementaryStream{ElementaryPID: 0x100, StreamType: astits.StreamTypeH264Video})
+			m.SetPCRPID(0x100)
+			okAll := len(first) > 0
+			for _, pd := range first {
+				var err error
+				if pn := safeCall(func() { _, err = m.WriteData(&astits.MuxerData{PID: 0x100, PES: pd}) }); pn != nil || err != nil {
+					okAll = false
+				}
+			}
+			if !okAll {
+				continue
+			}
+			_, got := demuxAll(w.buf.Bytes())
+			rec.ev(M{"ev": "pstream", "class": "demuxed-muxed-demuxed", "pid": 0x100, "sent": sent, "got": got})
 		}
 	default:
 		fatal("unknown pes part %q", sc.Part)
